@@ -6,7 +6,15 @@
      ao.<value>.<script>                 add_output(TxOut::new(value, script))
      po.<value>.<script>                 prepend_output         io.<k>.<...>  insert_output(k, ..)  so.<k>.<...>  set_output(k, ..)
      sv.<n>  set_version     sl.<n>  set_nlocktime     cl  continue with tx.clone()
+     svc.<n> / slc.<n>                   the same, continuing with the clone these two calls return
      sh.<flag>.<idx>.<subscript>.<value> sighash_preimage
+     sg.<flag>.<idx>.<subscript>.<value> sign (fixed key);  sk. ... sign_with_k (fixed key and nonce): first field v1 / v0 =
+                                         Transaction::verify of the returned signature (E = refused); third field v1 / v0 =
+                                         ECDSA::verify_digest of that signature against the fresh copy's preimage
+     ais.<e>/<e>/...                     add_inputs(vec), element = <txid>,<vout>,<script>,<seq> ("ais." = empty vec)
+     aos.<e>/<e>/...                     add_outputs(vec), element = <value>,<script>
+     hi.<flag>                           the public hash_inputs(flag): first / third field = checksum of the 32 bytes
+     go                                  get_outpoints()
    Result: "OK:" followed by six ";"-separated fields per step:
      preimage (n = not a sighash step, E = refused, else <len>:<checksum>) ; serialisation <len>:<checksum> ;
      preimage of a fresh from_bytes(to_bytes()) copy (n / E / X = the copy does not parse / <len>:<checksum>) ;
@@ -30,7 +38,9 @@ Inductive xop :=
 | XIn (kind : N) (k : N) (i : txin)          (* kind 0 add, 1 prepend, 2 insert, 3 set *)
 | XOut (kind : N) (k : N) (o : txout)
 | XVer (v : N) | XLock (v : N) | XClone
-| XSig (f idx : N) (sub : list bit) (v : N).
+| XSig (f idx : N) (sub : list bit) (v : N)
+| XSign (f idx : N) (sub : list bit) (v : N)
+| XIns (l : list txin) | XOuts (l : list txout) | XHashIn (f : N) | XGetOutpoints.
 
 Definition parse_in (txid vo scr sq : string) : option txin :=
   match expand txid, N_of_dec vo, expand scr, N_of_dec sq with
@@ -44,8 +54,33 @@ Definition parse_out (v scr : string) : option txout :=
   | _, _ => None
   end.
 
+Fixpoint parse_list {A} (pe : list string -> option A) (l : list string) : option (list A) :=
+  match l with
+  | [] => Some []
+  | e :: r => match pe (split "," e), parse_list pe r with Some a, Some as' => Some (a :: as') | _, _ => None end
+  end.
+Definition parse_elems {A} (pe : list string -> option A) (body : string) : option (list A) :=
+  if String.eqb body "" then Some [] else parse_list pe (split "/" body).
+Definition pe_in (f : list string) : option txin := match f with [a; b; c; d] => parse_in a b c d | _ => None end.
+Definition pe_out (f : list string) : option txout := match f with [a; b] => parse_out a b | _ => None end.
+
+Definition parse_sig (mk : N -> N -> list bit -> N -> xop) (f i sub v : string) : option xop :=
+  match N_of_dec f, N_of_dec i, expand sub, N_of_dec v with
+  | Some f', Some i', Some sb, Some v' =>
+      if is_sighash f' then match from_bytes sb with Ok s => Some (mk f' i' s v') | _ => None end else None
+  | _, _, _, _ => None
+  end.
+
 Definition parse_op (s : string) : option xop :=
   match split "." s with
+  | ["svc"; v] => option_map XVer (N_of_dec v)
+  | ["slc"; v] => option_map XLock (N_of_dec v)
+  | ["sg"; f; i; sub; v] => parse_sig XSign f i sub v
+  | ["sk"; f; i; sub; v] => parse_sig XSign f i sub v
+  | ["ais"; body] => option_map XIns (parse_elems pe_in body)
+  | ["aos"; body] => option_map XOuts (parse_elems pe_out body)
+  | ["hi"; f] => match N_of_dec f with Some f' => if is_sighash f' then Some (XHashIn f') else None | None => None end
+  | ["go"] => Some XGetOutpoints
   | ["ai"; a; b; c; d] => option_map (XIn 0 0) (parse_in a b c d)
   | ["pi"; a; b; c; d] => option_map (XIn 1 0) (parse_in a b c d)
   | ["ii"; k; a; b; c; d] => match N_of_dec k with Some n => option_map (XIn 2 n) (parse_in a b c d) | None => None end
@@ -90,6 +125,11 @@ Definition to_op (s : state) (x : xop) : op :=
   | XLock v => SetLocktime v
   | XClone => CloneOp
   | XSig f idx sub v => Sighash f (clampN idx (length (inputs t))) sub v
+  | XSign f idx sub v => SignOp f (clampN idx (length (inputs t))) sub v
+  | XIns l => AddInputs l
+  | XOuts l => AddOutputs l
+  | XHashIn f => HashInputsOp f
+  | XGetOutpoints => GetOutpointsOp
   end.
 
 Definition show_state_tail (s : state) : string :=
@@ -98,11 +138,21 @@ Definition show_slots (s : state) : string :=
   show_slot (c_inputs (st_cache s)) +++ ";" +++ show_slot (c_sequence (st_cache s)) +++ ";" +++ show_slot (c_outputs (st_cache s)).
 
 (* fresh copy: Transaction::from_bytes(&tx.to_bytes()) and the same sighash call on it *)
+(* a signing step shows whether the signature verifies: true whenever there is a preimage *)
+Definition show_signed (r : outcome bytes) : string := match r with Ok _ => "v1" | Err => "E" | Panic => "P" end.
+Definition show_out (o : op) (r : outcome bytes) : string :=
+  match o with SignOp _ _ _ _ => show_signed r | _ => show_res r end.
+
 Definition fresh_result (t : tx) (o : op) : string :=
   match o with
-  | Sighash f idx sub v =>
+  | Sighash f idx sub v | SignOp f idx sub v =>
       match tx_from_bytes (tx_bytes t) with
-      | Ok t' => show_res (snd (sighash_cached H_impl (fresh t') idx f sub v))
+      | Ok t' => show_out o (snd (sighash_cached H_impl (fresh t') idx f sub v))
+      | _ => "X"
+      end
+  | HashInputsOp f =>
+      match tx_from_bytes (tx_bytes t) with
+      | Ok t' => ck (snd (hash_inputs_c H_impl (fresh t') f))
       | _ => "X"
       end
   | _ => "n"
@@ -110,7 +160,8 @@ Definition fresh_result (t : tx) (o : op) : string :=
 
 Definition spec_result (t : tx) (o : op) : string :=
   match o with
-  | Sighash f idx sub v => show_res (sighash_preimage H_spec t idx f sub v)
+  | Sighash f idx sub v | SignOp f idx sub v => show_out o (sighash_preimage H_spec t idx f sub v)
+  | HashInputsOp f => ck (hash_inputs H_spec t f)
   | _ => "n"
   end.
 
@@ -122,7 +173,7 @@ Fixpoint run_history (xs : list xop) (s : state) : option (list string * list st
       let o := to_op s x in
       match step H_impl s o with
       | Ok (s', out) =>
-          let p := match out with Some res => show_res res | None => "n" end in
+          let p := match out with Some res => show_out o res | None => "n" end in
           let impl := p +++ ";" +++ ck (tx_bytes (st_tx s')) +++ ";" +++ fresh_result (st_tx s') o +++ ";" +++ show_slots s' in
           let sp := spec_result (st_tx s') o in
           let spec := sp +++ ";*;" +++ sp +++ ";*;*;*" in
